@@ -7,6 +7,7 @@ import (
 	"sort"
 	"strings"
 	"sync"
+	"sync/atomic"
 	"time"
 
 	"golang.org/x/tools/go/ssa"
@@ -88,6 +89,12 @@ type Verdict struct {
 	Cross      string // result of the cross-check solver, if any
 	Abstracted int    // kernel instances replaced under proved lemmas
 }
+
+// budget of the thorough tier's second-solver cross-check, in solver milliseconds per run
+// (16 workers: about 8 minutes of wall-clock time)
+const crossBudgetMs = 7200 * 1000
+
+var crossSpentMs int64
 
 type DischargeOpts struct {
 	IntTimeout time.Duration
@@ -183,12 +190,15 @@ func Discharge(vcs []*VC, extra func(*VC) []*smt.Term, o DischargeOpts) []Verdic
 						break
 					}
 				}
-				if !fp || a.Seconds < 10 {
+				// the whole cross-check of a run has a budget of solver time; what is not re-asked is
+				// reported as not cross-checked (evidence: cross_checked counts the ones that were)
+				if (!fp || a.Seconds < 10) && atomic.LoadInt64(&crossSpentMs) < crossBudgetMs {
 					other := smt.Z3New
 					if strings.HasPrefix(a.Solver, "z3") {
 						other = smt.CVC5
 					}
-					b := smt.Solve(other, final, nil, 120*time.Second)
+					b := smt.Solve(other, final, nil, 40*time.Second)
+					atomic.AddInt64(&crossSpentMs, int64(b.Seconds*1000)+50)
 					v.Cross = b.Res.String()
 				}
 			}
